@@ -36,6 +36,8 @@ def gen(rng, tier, quarantine=()):
     for i in range(nprobes):
         r = rng.random()
         focus = rng.choice([F["local"], F["local"], "p", "#value"]) if not F.get("property") else rng.choice([F["local"], "#value"])
+        if "no-enter-focus" not in quarantine and rng.random() < 0.1:
+            focus = "#enter"
         lv = {"fn": fam, "caps": [], "sibs": []}
         if r < 0.45 and not F.get("property"):
             name, cls = rng.choice(F["inst"])
